@@ -48,6 +48,12 @@ m("c01-jwks-error-on-refresh-ignored", "C01,C02", [(OIDC, '''	jwtSet, err := o.j
 m("c01-logout-no-remove-when-expired", "C01,C09", [(OIDC, '''		if sessionID != "" {
 			log.Info("removing session from session store during logout", "session-id", sessionID)''', '''		if sessionID != "" && len(headers) > 2 {
 			log.Info("removing session from session store during logout", "session-id", sessionID)''')], "logout skips the removal when the request has few headers")
+m("c01-handler-construction-error-allows", "C01,C08", [(SRV, '''					return nil, err
+				}
+			}''', '''					log.Error("cannot build the OIDC handler, letting the request through", err)
+					return allow, nil
+				}
+			}''')], "a filter whose handler cannot be built (discovery down) lets the request through")
 # ---- C02
 m("c02-skip-verify-on-refresh", "C02,C11", [(OIDC, '''	if _, err := jws.Verify([]byte(idTokenString), jws.WithKeySet(jwtSet, jws.WithInferAlgorithmFromKey(true))); err != nil {''',
    '''	if _, err := jws.Verify([]byte(idTokenString), jws.WithKeySet(jwtSet, jws.WithInferAlgorithmFromKey(true))); err != nil && isNonceRequired {''')], "signature only verified at login")
